@@ -126,6 +126,22 @@ func ToValList(s *schema.Node, vs []string) (val.Value, error) {
 			out[i] = f
 		}
 		return val.Decimal64List(out), nil
+	case "union":
+		// the first member type that takes every item: int32, else string
+		ints := make([]int32, len(vs))
+		allInt := true
+		for i, v := range vs {
+			n, err := strconv.ParseInt(v, 10, 32)
+			if err != nil {
+				allInt = false
+				break
+			}
+			ints[i] = int32(n)
+		}
+		if allInt {
+			return val.Int32List(ints), nil
+		}
+		return val.StringList(append([]string(nil), vs...)), nil
 	case "identityref":
 		var out val.IdentRefList
 		for _, v := range vs {
